@@ -10,8 +10,12 @@
 (* reads.  cache[f] says whether the on-disk cache holds file f; mem[f]    *)
 (* whether the current process holds it in memory; used says whether the   *)
 (* current process has parsed/run anything yet.  A job is run either by a  *)
-(* stand-alone CsvPath ("direct") or by a CsvPath created by a CsvPaths     *)
-(* instance ("paths"), which is the route that consults the cache.         *)
+(* stand-alone CsvPath ("direct"), by a CsvPath created by a CsvPaths       *)
+(* instance ("paths"), which is the route that consults the cache, or as a *)
+(* named run ("named"): the job's file is registered under ONE shared     *)
+(* named-file name - whatever was registered under it before, in this or   *)
+(* an earlier process (reg, regs: the named-files area is on disk) - and   *)
+(* the csvpath runs as a one-member group on that name.                    *)
 (***************************************************************************)
 EXTENDS Naturals, Sequences, FiniteSets, TLC, Json
 
@@ -20,31 +24,34 @@ Jobs == 1..NJobs
 Files == 1..NFiles
 FileOf(j) == ((j - 1) % NFiles) + 1
 
-VARIABLES cache, mem, used, hist
-hvars == <<cache, mem, used, hist>>
+VARIABLES cache, mem, used, reg, regs, hist
+hvars == <<cache, mem, used, reg, regs, hist>>
 
 Init == /\ cache = [f \in Files |-> "cold"] /\ mem = [f \in Files |-> FALSE]
-        /\ used = FALSE /\ hist = <<>>
+        /\ used = FALSE /\ reg = 0 /\ regs = {} /\ hist = <<>>
 
 \* the result of a job is a function of the job alone
 Res(j) == j
 
 Job(j, via) ==
   /\ hist' = Append(hist, [op |-> "job", j |-> j, via |-> via, res |-> Res(j),
-                           cacheWas |-> cache[FileOf(j)], memWas |-> mem[FileOf(j)], usedWas |-> used])
+                           cacheWas |-> cache[FileOf(j)], memWas |-> mem[FileOf(j)], usedWas |-> used,
+                           regWas |-> reg, regBefore |-> FileOf(j) \in regs])
   /\ used' = TRUE
-  /\ IF via = "paths"
+  /\ IF via \in {"paths", "named"}
        THEN cache' = [cache EXCEPT ![FileOf(j)] = "warm"] /\ mem' = [mem EXCEPT ![FileOf(j)] = TRUE]
        ELSE UNCHANGED <<cache, mem>>
+  \* a named run reads the file that is registered under the shared name NOW: the job's own
+  /\ IF via = "named" THEN reg' = FileOf(j) /\ regs' = regs \cup {FileOf(j)} ELSE UNCHANGED <<reg, regs>>
 NewProcess == /\ used
-              /\ used' = FALSE /\ mem' = [f \in Files |-> FALSE] /\ UNCHANGED cache
-              /\ hist' = Append(hist, [op |-> "newproc", j |-> 0, via |-> "", res |-> 0, cacheWas |-> "", memWas |-> FALSE, usedWas |-> TRUE])
+              /\ used' = FALSE /\ mem' = [f \in Files |-> FALSE] /\ UNCHANGED <<cache, reg, regs>>
+              /\ hist' = Append(hist, [op |-> "newproc", j |-> 0, via |-> "", res |-> 0, cacheWas |-> "", memWas |-> FALSE, usedWas |-> TRUE, regWas |-> reg, regBefore |-> FALSE])
 ClearCache == /\ \E f \in Files : cache[f] = "warm"
-              /\ cache' = [f \in Files |-> "cold"] /\ UNCHANGED <<mem, used>>
-              /\ hist' = Append(hist, [op |-> "clearcache", j |-> 0, via |-> "", res |-> 0, cacheWas |-> "", memWas |-> FALSE, usedWas |-> used])
+              /\ cache' = [f \in Files |-> "cold"] /\ UNCHANGED <<mem, used, reg, regs>>
+              /\ hist' = Append(hist, [op |-> "clearcache", j |-> 0, via |-> "", res |-> 0, cacheWas |-> "", memWas |-> FALSE, usedWas |-> used, regWas |-> reg, regBefore |-> FALSE])
 
 Next == /\ Len(hist) < MaxLen
-        /\ \/ \E j \in Jobs, via \in {"direct", "paths"} : Job(j, via)
+        /\ \/ \E j \in Jobs, via \in {"direct", "paths", "named"} : Job(j, via)
            \/ NewProcess \/ ClearCache
 Spec == Init /\ [][Next]_hvars
 
@@ -54,6 +61,9 @@ HistoryFree == \A i \in 1..Len(hist) : hist[i].op = "job" => hist[i].res = Res(h
 \* a job served from a warm disk cache in a fresh process, from memory, cold, and after other jobs
 WarmFresh == \E i \in 1..Len(hist) : hist[i].op = "job" /\ hist[i].via = "paths" /\ hist[i].cacheWas = "warm" /\ ~hist[i].memWas
 
+\* a name re-registered to content it held before, with other content in between (X, Y, X)
+BackToEarlier == \E i \in 1..Len(hist) : hist[i].op = "job" /\ hist[i].via = "named" /\ hist[i].regBefore /\ hist[i].regWas # FileOf(hist[i].j)
+
 Emit == Len(hist) = MaxLen => PrintT(<<"F", ToJson(hist)>>)
-StoreView == <<cache, mem, used>>
+StoreView == <<cache, mem, used, reg, regs>>
 =============================================================================
